@@ -14,7 +14,7 @@ RULE = ("all 27 table entries; per gate: matrix computable symbolically and nume
         "parameters; fixed relations exactly. non-trivial = parametric gate with a certificate / a fixed relation between two different gates")
 ASSUMPTIONS = ["sympy evaluates its own expressions at numbers correctly (lambdify/evalf)", "cut-off: a trigonometric polynomial of degree <= D vanishing on 2D+1 equispaced points vanishes identically",
                "grid residuals <= 1e-10 imply sup-norm residual <= 1e-10 * prod(2D_i+1)"]
-BOUNDS = {"quick": {"grid": "certificate-sized tensor grid", "U3_numeric_path_points": 27}, "thorough": {"grid": "certificate-sized tensor grid", "U3_numeric_path_points": 125}}
+BOUNDS = {"quick": {"grid": "certificate-sized tensor grid", "U3_numeric_path_points": 27}, "thorough": {"grid": "certificate-sized tensor grid", "U3_numeric_path_points": "all grid points"}}
 EPS = 1e-10
 
 TABLE = [("X", 0, 1, True), ("Y", 0, 1, True), ("Z", 0, 1, True), ("H", 0, 1, True), ("I", 0, 1, True), ("S", 0, 1, False), ("SX", 0, 1, False), ("T", 0, 1, False),
@@ -188,7 +188,7 @@ FUNCS = {"gates": gate_case, "group_law": group_case, "relations": relation_case
 
 def run(run):
     thorough = run.tier == "thorough"
-    secs = [Section("gates", [{"gate": n, "npar": k, "nq": q, "numeric_points": 125 if thorough else 27} for n, k, q, _ in TABLE], gate_case, horizon=600, chunk=1,
+    secs = [Section("gates", [{"gate": n, "npar": k, "nq": q, "numeric_points": 100000 if thorough else 27} for n, k, q, _ in TABLE], gate_case, horizon=600, chunk=1,
                     desc="unitarity, dimension, Hermitian flag, dagger on the certificate grid (all 27 gates)"),
             Section("group_law", [{"gate": n} for n in GROUP], group_case, horizon=600, chunk=1, desc="U(a)U(b)=U(a+b), U(0)=I on the 2-D certificate grid"),
             Section("relations", [{"rel": r} for r in ("S*S=Z", "T*T=S", "SX*SX=X", "H*Z*H=X", "CNOT=diag(I,X)", "CNOT=X.controlled(1)", "CZ=diag(I,Z)", "CZ=Z.controlled(1)",
